@@ -35,12 +35,12 @@ def run(ctx):
     shim = ctx.build_ir('c29.cpp', 'cut'); lg = ctx.build_ir(REPO + '/runtime/logger.cpp', 'cut'); ut = ctx.build_ir(REPO + '/runtime/f8utils.cpp', 'cut')
     ll = ctx.link_ir([shim, lg, ut], 'c29all')
     ctx.translate(ll, ['vf_max_rotation', 'vf_fl_setup', 'vf_fl_rotate', 'vf_flag_append', 'vf_flag_compress'], 'c29l.c', stubfiles=['common.stubs', 'store.stubs', 'c29.stubs'],
-                  models=['cxx.c', 'stubs.c', 'cxx_more.c', 'ostream_fmt.c', 'pthread_seq.c', 'ofstream_null.c', 'vecstr_pool.c'], provided=['rename', 'vf_ofs_opened'])
+                  models=['cxx.c', 'stubs.c', 'cxx_more.c', 'ostream_fmt.c', 'pthread_seq.c', 'ofstream_null.c', 'vecstr_pool.c'], provided=['rename', 'vf_ofs_opened', 'access'])
     C26.build_file(ctx, out='c29f.c', roots=['vf_fp_ctor', 'vf_fp_init', 'vf_max_rotation'], provided=['rename', 'access', 'open', 'read'], extra_ll=[shim],
                    models=['cxx.c', 'stubs.c', 'cxx_more.c', 'ostream_fmt.c', 'vecstr_pool.c'], stubfiles=['common.stubs', 'store.stubs', 'c29.stubs'])
     # the same code with opaque names (models/ostream_null.c) for the 1000+ iteration runs around the documented maximum
     ctx.translate(ll, ['vf_max_rotation', 'vf_fl_setup', 'vf_fl_rotate', 'vf_flag_append', 'vf_flag_compress'], 'c29lb.c', stubfiles=['common.stubs', 'store.stubs', 'c29.stubs'],
-                  models=['cxx.c', 'stubs.c', 'cxx_more.c', 'ostream_null.c', 'pthread_seq.c', 'ofstream_null.c', 'vecstr_pool.c'], provided=['rename', 'vf_ofs_opened'])
+                  models=['cxx.c', 'stubs.c', 'cxx_more.c', 'ostream_null.c', 'pthread_seq.c', 'ofstream_null.c', 'vecstr_pool.c'], provided=['rename', 'vf_ofs_opened', 'access'])
     C26.build_file(ctx, out='c29fb.c', roots=['vf_fp_ctor', 'vf_fp_init', 'vf_max_rotation'], provided=['rename', 'access', 'open', 'read'], extra_ll=[shim],
                    models=['cxx.c', 'stubs.c', 'cxx_more.c', 'ostream_null.c', 'vecstr_pool.c'], stubfiles=['common.stubs', 'store.stubs', 'c29.stubs'])
     BIGDEF = ['BIG', 'VF_VEC_OPAQUE', 'VF_VEC_CAP=%d' % (cap + 4)]
@@ -53,7 +53,7 @@ def run(ctx):
         if isbig and kf_class_excluded(defs, r, cap): continue
         ctx.add(Harness('C29_log_rot%d%s' % (r, '_gz' if comp else ''), VERIF + '/harness/C29_log.c',
                         defines=defs + ['ROTNUM=%d' % r, 'VF_MAXCOPY=12', 'VF_VEC_N=1'] + (BIGDEF if isbig else ['VF_VEC_CAP=%d' % (r + 3)]) + (['COMPRESSED'] if comp else []), unwind=3, unwindset=lus(n),
-                        timeout=900 if not isbig else 2400, mem_gb=16, functions=LFUN, stubs=LSTUBS, nochecks=isbig,
+                        timeout=900 if not isbig else 2400, mem_gb=16, functions=LFUN, stubs=LSTUBS, nochecks=isbig, object_bits=16 if isbig else 12,
                         bounds=('rotation count %d (documented maximum %d read from logger.hpp)' % (r, cap)) + (BIGNOTE if isbig else ', flags {append%s} and force symbolic, every set of pre-existing generations name..name.%d with distinct contents' % (', compress' if comp else '', n - 2)),
                         desc='real FileLogger::rotate over the rename recorder'))
     psmall = [(0,), (2,), (6,)] if ctx.tier == 'quick' else [(r,) for r in range(7)]
@@ -63,7 +63,7 @@ def run(ctx):
         if isbig and kf_class_excluded(defs, r, cap): continue
         ctx.add(Harness('C29_fp_rot%d' % r, VERIF + '/harness/C29_fp.c', defines=defs + ['ROTNUM=%d' % r, 'VF_MAXCOPY=12', 'VF_VEC_N=2'] + (BIGDEF if isbig else ['VF_VEC_CAP=%d' % (r + 3)]), unwind=(r + 3) if not isbig else 3,
                         unwindset=pus(n) + (['_ZN4FIX813FilePersister10initialiseERKNSt7__cxx1112basic_stringIcSt11char_traitsIcESaIcEEES8_b.%d:%d' % (i, n) for i in range(17)] if isbig else []),
-                        timeout=900 if not isbig else 2400, mem_gb=16, functions=PFUN, stubs=STUBS, nochecks=isbig,
+                        timeout=900 if not isbig else 2400, mem_gb=16, functions=PFUN, stubs=STUBS, nochecks=isbig, object_bits=16 if isbig else 12,
                         bounds=('rotation count %d (documented maximum %d)' % (r, cap)) + (BIGNOTE if isbig else ', purge symbolic, every set of pre-existing data and index generations ./s[.k][.idx], k <= %d, with distinct contents' % (n - 2)),
                         desc='real FilePersister::initialise (purge rotation) over the rename recorder'))
     ctx.assumptions += ['rename() follows POSIX: atomic replace of the target, ENOENT for a missing source (harness/C29_rec.h)', 'operator new never fails',
@@ -92,5 +92,5 @@ def replay(ctx, cx, h=None):
     try: r = sh([exe, which, str(rot), str(flags), str(force if which == 'log' else purge)] + masks, env=dict(os.environ, ASAN_OPTIONS='detect_leaks=0:detect_container_overflow=1', VF_C29_DIR=tmp))
     finally: shutil.rmtree(tmp, ignore_errors=True)
     out = (r.stdout or '')
-    key = [l for l in out.splitlines() if 'ERROR: AddressSanitizer' in l or 'VIOLATED' in l or 'runtime error' in l]
+    key = [l for l in out.splitlines() if 'ERROR: AddressSanitizer' in l or 'VIOLATED' in l or 'runtime error' in l or 'does not hold' in l or 'touched' in l]
     return r.returncode != 0, ('%s rotnum=%d -> ' % (which, rot)) + (' | '.join(key)[:400] if key else out.strip()[-300:].replace('\n', ' | '))
